@@ -3,7 +3,7 @@ CONSTANTS
   Words <- CharWords
   MinWords = 4
   MaxWords = 4
-  Must = {}
+  Must = {42, 91, 92}
   OptSet <- OptsLS
   PathAlpha <- PathAlphaDef
   PathLen = 4
@@ -16,4 +16,3 @@ CONSTANTS
   RandCount = 0
   SelfLen = 0
 INVARIANTS Emit EmitHdr
-VIEW View
